@@ -10,6 +10,7 @@ import argparse
 import copy
 import json
 import math
+import os
 import sys
 import traceback
 
@@ -860,6 +861,24 @@ def scenario_fd(rng, props, fails, stats):
         tol = 1e-5 if mode in (None, "2-point") else 1e-7
         if res.fun - ex.fun > tol * max(1.0, abs(ex.fun)):
             fails.append(("C16", f"FD solution ({mode}) worse than the exact-gradient solution by {res.fun - ex.fun:.2e}"))
+    # another finite-difference solve (other dimension, other box, other mode) started while this one is in progress
+    # must not change anything: same evaluation points, same result
+    if rng.random() < 0.3:
+        rec2 = Rec(p)
+        calls = [0]
+
+        def fun_nested(x):
+            calls[0] += 1
+            if calls[0] == 3:
+                minimize_lbfgsb(x0=np.array([5.5]), fun=lambda z: float((z[0] - 7.0) ** 2), jac="3-point",
+                                bounds=np.array([[5.0, 6.0]]), maxiter=5)
+            return rec2.fun(x)
+        res2, exc2 = run_once(p, dict(kw, fun=fun_nested), rec2)
+        if exc2 is not None:
+            fails.append(("C16", f"finite-difference run ({mode}) with a nested finite-difference solve raised "
+                                 f"{type(exc2).__name__}: {exc2}"))
+        elif len(rec2.fpts) != len(rec.fpts) or any(not np.array_equal(a, b) for a, b in zip(rec.fpts, rec2.fpts)):
+            fails.append(("C16", f"a nested finite-difference solve changed the evaluation points of the outer one ({mode})"))
     return describe(p, kw)
 
 
@@ -885,8 +904,13 @@ def scenario_kkt(rng, props, fails, stats):
     return describe(p, kw)
 
 
+TOL_C12 = float(os.environ.get("C12_TOL", "1e-9"))   # HEAD agrees to < 1e-11 on 600 sampled runs
+
+
 def scenario_scipy(rng, props, fails, stats):
-    """C12: unconstrained problems - same evaluation points as SciPy's L-BFGS-B while no documented deviation fires."""
+    """C12: unconstrained problems - same evaluation points as SciPy's L-BFGS-B while no documented deviation fires.
+    Also on rescaled copies f_e(x) = e * F(x / e) (Algorithm 778 has no absolute constant that such a scaling could
+    meet) and with a gradient callable that reuses one output buffer (legitimate user code)."""
     from scipy.optimize import minimize
     kind = rng.choice(["qp4", "softplus", "rosen"])
     n = int(rng.integers(2, 9))
@@ -895,18 +919,36 @@ def scenario_scipy(rng, props, fails, stats):
     p.ub[:] = np.inf
     x0 = rng.uniform(-1.5, 1.5, p.n)
     m = int(rng.integers(1, 9))
+    # only down-scaled copies: on up-scaled ones the documented first-iteration step cap (stpmax = 1 at iteration 0)
+    # binds after the first trial and the sequences legitimately part
+    e = float(rng.choice([1.0, 1.0, 1.0, 1e-10, 1e-5, 1e-3]))
+    reuse = bool(rng.random() < 0.4)
     mine, ref = [], []
+    buf = np.zeros(p.n)
+
+    def F(x):
+        return e * p.f(x / e)
+
+    def G(x):
+        return p.g(x / e)
+
+    def g1(x):
+        if reuse:
+            buf[:] = G(x)
+            return buf
+        return G(x)
 
     def f1(x):
         mine.append(x.copy())
-        return p.f(x)
+        return F(x)
 
     def f2(x):
         ref.append(x.copy())
-        return p.f(x)
-    r1, exc = run_once(p, dict(x0=x0.copy(), fun=f1, jac=p.g, maxcor=m, maxiter=12, ftol=0.0, gtol=1e-9, maxfun=500), None)
-    r2 = minimize(f2, x0.copy(), jac=p.g, method="L-BFGS-B", options=dict(maxcor=m, maxiter=12, ftol=0.0, gtol=1e-9,
-                                                                          maxfun=500, maxls=20))
+        return F(x)
+    x0 = x0 * e
+    r1, exc = run_once(p, dict(x0=x0.copy(), fun=f1, jac=g1, maxcor=m, maxiter=12, ftol=0.0, gtol=1e-9, maxfun=500), None)
+    r2 = minimize(f2, x0.copy(), jac=G, method="L-BFGS-B", options=dict(maxcor=m, maxiter=12, ftol=0.0, gtol=1e-9,
+                                                                        maxfun=500, maxls=20))
     stats["runs"] += 1
     if exc is not None:
         fails.append(("C12", f"run raised {type(exc).__name__}: {exc}"))
@@ -915,21 +957,21 @@ def scenario_scipy(rng, props, fails, stats):
     # sequences only when the first two evaluation points agree, and stop at the first line search with >1 trials in
     # either run after which 'lowest trial instead of last' may select differently
     L = min(len(mine), len(ref))
-    if L < 3 or np.max(np.abs(mine[1] - ref[1])) > 1e-8 * max(1.0, np.max(np.abs(ref[1]))):
+    if L < 3 or np.max(np.abs(mine[1] - ref[1])) > 1e-8 * max(e, np.max(np.abs(ref[1]))):
         return describe(p, {})
     stats["nontrivial"] += 1
     for i in range(L):
-        err = np.max(np.abs(mine[i] - ref[i])) / max(1.0, np.max(np.abs(ref[i])))
-        if err > 1e-6:
+        err = np.max(np.abs(mine[i] - ref[i])) / max(e, np.max(np.abs(ref[i])))
+        if err > TOL_C12:
             # deviation 2: a multi-trial line search happened before -> not comparable any further
-            multi = any(np.allclose(mine[j] - mine[j - 1], 0) for j in range(1, i))
-            fvals = [p.f(x) for x in mine[:i + 1]]
+            multi = any(np.allclose(mine[j] - mine[j - 1], 0, atol=1e-8 * e) for j in range(1, i))
+            fvals = [F(x) for x in mine[:i + 1]]
             nonmono = any(fvals[j] > fvals[j - 1] for j in range(1, len(fvals)))
             if not nonmono and not multi:
                 fails.append(("C12", f"evaluation point #{i} differs from SciPy's L-BFGS-B by {err:.2e} (relative) with "
-                                     f"no deviation trigger before it"))
+                                     f"no deviation trigger before it (scale {e:g}, buffer-reusing gradient: {reuse})"))
             break
-    return describe(p, {"maxcor": m})
+    return describe(p, {"maxcor": m, "scale": e, "reuse": reuse})
 
 
 def _memory(rng, n, m, convex=True):
